@@ -12,6 +12,7 @@ From ReqV Require Import Lib.Bytes Model.Decode Model.BodyStages Model.H1Resp Mo
   Model.H2Info Proofs.H2InfoProofs Model.HeaderSlots Proofs.HeaderSlotsProofs Proofs.C07DigestAlg
   Model.H3Control Proofs.H3ControlProofs Proofs.C07H2Order
   Model.H2Wake Proofs.H2WakeProofs Model.H3Retry Proofs.H3RetryProofs.
+From ReqV Require Model.H2GoAway Proofs.H2GoAwayProofs.
 From ReqV Require Model.Digest Gen.C07Consts Model.H3Frame Model.H3Limits Proofs.H3FrameProofs Proofs.H3LimitsProofs.
 From Coq Require Import Lia.
 Local Open Scope nat_scope.
@@ -371,6 +372,25 @@ Theorem C07_h3_unguarded_replay_refuted : forall fuel,
   attempts false {| r_replayable := true; r_only_cached := false |} fuel false (repeat FConnClosed fuel) = None.
 Proof. exact h3_unguarded_replay_refuted. Qed.
 Print Assumptions C07_h3_unguarded_replay_refuted.
+
+(* ---------- HTTP/2: what is remembered from one GOAWAY frame to the next ---------- *)
+
+(* every non-empty sequence of GOAWAY frames: the first non-zero error code, the first non-empty debug
+   text and the latest last-stream id are what the pending requests are told *)
+Theorem C07_h2_goaway_first_error_wins : forall f fs,
+  exists s, H2GoAway.goaway_run None (f :: fs) = Some s /\
+    H2GoAway.gs_code s = H2GoAway.first_code (f :: fs) /\
+    H2GoAway.gs_debug s = H2GoAway.first_debug (f :: fs) /\
+    H2GoAway.gs_last s = match rev fs with [] => H2GoAway.gf_last f | g :: _ => H2GoAway.gf_last g end.
+Proof. exact H2GoAwayProofs.goaway_first_error_wins. Qed.
+Print Assumptions C07_h2_goaway_first_error_wins.
+
+(* the three remembered values are the whole carried state: nothing else of an earlier frame matters *)
+Theorem C07_h2_goaway_state_is_all : forall fs1 fs2 rest,
+  H2GoAway.goaway_run None fs1 = H2GoAway.goaway_run None fs2 ->
+  H2GoAway.goaway_run None (fs1 ++ rest) = H2GoAway.goaway_run None (fs2 ++ rest).
+Proof. exact H2GoAwayProofs.goaway_state_is_all. Qed.
+Print Assumptions C07_h2_goaway_state_is_all.
 
 (* ---------- translator tie: limits and tables regenerated from the source ---------- *)
 
